@@ -1358,11 +1358,6 @@ def _key_read(v, key):
     return None
 
 
-def _pilot_key_read(v):
-    """task's own pilot: X.get('pilot') / X['pilot']  ->  X name"""
-    return _key_read(v, 'pilot')
-
-
 def _only_unbound_callers(prog, f, g, node):
     """the site lies on a branch `<task's pilot>` is truthy, in a method whose
     callers (in the scheduler classes) pass only tasks collected on the
@@ -3408,6 +3403,35 @@ def _state_atom(prog, f, g, atom, at, tvars, s, values):
         return UNKNOWN
 
 
+class _Opaque(Exception):
+    pass
+
+
+def _state_test(prog, f, g, e, at, tvars, s, values, depth=0):
+    """truth of a whole test expression for a task in state s (three valued:
+    None = depends on something else); not / and / or are evaluated, so a
+    state test inside a disjunction counts; raises _Opaque for a test of the
+    task state the recogniser cannot evaluate"""
+    if isinstance(e, ast.UnaryOp) and isinstance(e.op, ast.Not):
+        v = _state_test(prog, f, g, e.operand, at, tvars, s, values, depth)
+        return None if v is None else not v
+    if isinstance(e, ast.BoolOp):
+        vs = [_state_test(prog, f, g, x, at, tvars, s, values, depth)
+              for x in e.values]
+        dom = isinstance(e.op, ast.Or)      # the value that decides
+        if any(v is dom for v in vs):
+            return dom
+        return None if any(v is None for v in vs) else (not dom)
+    if isinstance(e, ast.Name) and depth < 4:
+        v = hoisted_test(g, e.id, at)
+        if v is not None:
+            return _state_test(prog, f, g, v, at, tvars, s, values, depth + 1)
+    v = _state_atom(prog, f, g, e, at, tvars, s, values)
+    if v is UNKNOWN:
+        raise _Opaque(short(e, 60))
+    return v
+
+
 def r12_11(prog, rep, rid='R12.11'):
     rep.rule(rid, "Backfilling.update_tasks debits info['used'] for a task "
              'state notification only if the task has left AGENT_EXECUTING '
@@ -3435,20 +3459,28 @@ def r12_11(prog, rep, rid='R12.11'):
             raise AnalysisError('UNRECOGNISED-IDIOM %s: debit outside of a '
                                 'loop over tasks' % fu.where)
         tvars = set(h.names)
-        facts = guard_facts(g, d.id, start=iter_start(g, h.id))
+        # the states for which the debit is reachable within one iteration:
+        # a test whose outcome the state decides leaves by that edge only
+        # (short-circuit operators are separate test nodes of the graph, so
+        # disjunctions are followed path by path)
+        start = iter_start(g, h.id)
+        tnodes = [n for n in g.nodes if n.kind == 'test' and n.ast is not None
+                  and n.id in g.loop_body[h.id] and
+                  d.id in g.reachable(n.id, skip_nodes={h.id})]
         admitted = []
         for s in values:
-            ok = True
-            for a, pol, tid in facts:
-                v = _state_atom(prog, fu, g, a, tid, tvars, s, values)
-                if v is UNKNOWN:
+            skip = []
+            for t in tnodes:
+                try:
+                    v = _state_test(prog, fu, g, t.ast, t.id, tvars, s, values)
+                except _Opaque as e:
                     raise AnalysisError(
                         'UNRECOGNISED-IDIOM %s: the debit `%s` is guarded by '
                         '`%s`, a test of the task state the recogniser cannot '
-                        'evaluate' % (fu.where, short(d.ast, 40), short(a, 60)))
-                if v is not None and v != pol:
-                    ok = False
-            if ok:
+                        'evaluate' % (fu.where, short(d.ast, 40), e))
+                if v is not None:
+                    skip.append((t.id, 'F' if v else 'T'))
+            if d.id in g.reachable(start, skip_nodes={h.id}, skip_edges=skip):
                 admitted.append(s)
         early = sorted((s for s in admitted if values[s] <= values[busy]),
                        key=lambda s: values[s])
@@ -3530,7 +3562,14 @@ def run(prog, rep, tier):
         'and debited by the same expression, once per task; the round-robin '
         'index is wrapped before use and advanced once per assignment; a '
         'pilot record is created only for a pilot that has none (what the '
-        'scheduler learned about a pilot is never reset).')
+        'scheduler learned about a pilot is never reset); the tasks read from '
+        'self._early[K] go to the pilot whose uid is K and that entry is the '
+        'one removed, a task is parked under and looked up by its own '
+        "task['pilot']; Backfilling debits info['used'] exactly for task "
+        'states beyond AGENT_EXECUTING, including every final state '
+        '(evaluated over the state table); the Session getters that '
+        '_assign_pilot derives the sandboxes from never change a cached URL '
+        'through an alias (R11.6b re-evaluated as R12.12).')
     rep.undecided = ('interleavings of control messages, state notifications '
         'and the work callback (the three callbacks take different locks); '
         'whether task state notifications of early-bound tasks are consistent '
@@ -3555,6 +3594,12 @@ def run(prog, rep, tier):
         '`for t in X`; any other while loop over tasks stops the analysis',
         'calls on self._log / self._prof / self._rep have no effect on the '
         'property',
+        'a task occupies the cores of its pilot up to and including '
+        'AGENT_EXECUTING (states.py); self._early is keyed by pilot uid, the '
+        "'uid' entry of a pilot document and the 'pilot' entry of a task",
+        'a local read from X[key] denotes that field of the X bound at the '
+        'read; paths on which such a local is unbound (NameError) or None '
+        'do not count',
     ]
     _setup(prog)
 
@@ -4265,4 +4310,20 @@ MUTATIONS += [
                      "                        fid = first['uid']\n"
                      "                        for task in early_tasks:\n"
                      "                            self._assign_pilot(task, self._pilots[fid]['pilot'])\n")]),
+]
+
+SILENT += [
+    dict(name='update_tasks: debit under a disjunction (final state or beyond AGENT_EXECUTING)', edits=[
+        (_F, _F_EARLY, "                if not (state in rps.FINAL or rps._task_state_value(state) >\n"
+                       "                        rps._task_state_value(rps.AGENT_EXECUTING)):\n"
+                       "                    self._log.debug('upd task %s too early', uid)\n"
+                       "                    continue\n")],
+         note='finals lie beyond AGENT_EXECUTING: the same set of states'),
+]
+MUTATIONS += [
+    dict(name='R12.11 disjunction admits the executing state itself', rules=('R12.11',), edits=[
+        (_F, _F_EARLY, "                if not (state == rps.AGENT_EXECUTING or rps._task_state_value(state) >\n"
+                       "                        rps._task_state_value(rps.AGENT_EXECUTING)):\n"
+                       "                    self._log.debug('upd task %s too early', uid)\n"
+                       "                    continue\n")]),
 ]
